@@ -89,7 +89,7 @@ def _replay(ctx, thorough):
     ctx.replay_cases("replay_client", cases, label="stream")
     if thorough:
         sim = os.path.join(ctx.work, "stream-sim.ndjson")
-        g2 = ctx.tlc("Gen_ClientStream", "Gen_ClientStream_sim", workers=1, simulate=4000,
+        g2 = ctx.tlc("Gen_ClientStream", "Gen_ClientStream_sim", workers=1, simulate=1500,
                      depth=14, label="gen-stream-sim", coverage=False, cases_to=sim, count=False)
         ctx.require_ok(g2, "Gen_ClientStream (simulation)")
         ctx.replay_cases("replay_client", sim, label="stream-sim")
